@@ -14,72 +14,125 @@ func init() {
 	register(&propDef{
 		id: "C17", level: "other", run: runC17,
 		trusted: []string{"append(s, x) adds x after the last element; s[k:] drops the first k elements; len"},
-		explain: "Decides the local facts from which FIFO behaviour follows by induction on the operation sequence, on six tiny functions: peeks and Empty store nothing and call no mutator (R1); only the constructor, Push, Pop and PopN write the slice, and package xmpp never does (R2); Push appends exactly one fresh element at the tail whose id is 1 on an empty queue and last.Id+1 otherwise, carrying the given text (R3); Pop/PopN remove from the head exactly as many elements as the corresponding peek returned, and return those (R4); PeekN returns nil for n <= 0, clamps n to the length, and copies Uslice[0..n) in ascending order; Peek returns Uslice[0] of a non-empty queue; Empty is len == 0 (R5); every method starts with the nil-receiver guard (R6). Ids strictly increase by induction because insertion is tail-only with last.Id+1 and removal head-only. Not decided as a whole-sequence equivalence with a reference FIFO (no execution, no model).",
+		explain: "Decides the local facts from which FIFO behaviour follows by induction on the operation sequence, on six tiny functions: peeks and Empty store nothing and call no mutator (R1); only the constructor, Push, Pop and PopN write the slice, and package xmpp never does (R2); Push appends exactly one fresh element at the tail whose id is 1 on an empty queue and last.Id+1 otherwise, carrying the given text (R3); Pop/PopN remove from the head exactly as many elements as the corresponding peek returned, and return those (R4); PeekN returns nil for n <= 0, clamps n to the length, and copies Uslice[0..n) in ascending order; Peek returns Uslice[0] of a non-empty queue; Empty is len == 0 (R5); no method dereferences a nil receiver and a nil queue is empty (R6). Ids strictly increase by induction because insertion is tail-only with last.Id+1 and removal head-only. The facts are phrased over edges and normal forms, so guard merging, helper extraction, range/index loop forms and inlining of one method into another do not matter. Not decided as a whole-sequence equivalence with a reference FIFO (no execution, no model).",
 	})
 }
 
 func runC17(w *World, r *Report, tier string) {
 	r.Rule("R1", "purity: Peek, PeekN and Empty contain no store through the receiver and call no mutator")
 	r.Rule("R2", "who-writes: UnAckQueue.Uslice is stored only by NewUnAckQueue, Push, Pop and PopN")
-	r.Rule("R3", "tail insertion: Push stores append(Uslice, &e) with one fresh element; e.Id is 1 on the empty edge and Uslice[len-1].Id + 1 otherwise; e.Stz is the argument's text")
-	r.Rule("R4", "head removal: Pop stores Uslice[1:] only when Peek() != nil and returns that element; PopN stores Uslice[len(PeekN(n)):] and returns PeekN(n)")
+	r.Rule("R3", "tail insertion: Push stores append(Uslice, &e) with one fresh element; e.Id is 1 on the empty path and Uslice[len-1].Id + 1 otherwise; e.Stz is the argument's text")
+	r.Rule("R4", "head removal: Pop stores Uslice[1:] only when the queue is non-empty and returns the former head; PopN stores Uslice[len(PeekN(n)):] and returns PeekN(n)")
 	r.Rule("R5", "peeks: PeekN returns nil when n <= 0, clamps n to len(Uslice), copies Uslice[i] for i ascending from 0; Peek returns Uslice[0] iff non-empty; Empty returns len(Uslice) == 0")
-	r.Rule("R6", "nil receiver: every method starts with `if uaq == nil` returning the zero result")
+	r.Rule("R6", "nil receiver: no dereference of the receiver is reachable unless an edge has established that it is non-nil (directly, or through Empty()==false / Peek()!=nil of the same receiver); a nil queue is empty")
 
 	fU := w.Field("stanza.UnAckQueue.Uslice")
 	method := func(n string) *ssa.Function { return w.Func("stanza.(*UnAckQueue)." + n) }
 	names := []string{"Peek", "PeekN", "Pop", "PopN", "Push", "Empty"}
-	U := "field:param:uaq.Uslice"
 
-	// R6
-	for _, n := range names {
-		fn := method(n)
-		b := fn.Blocks[0]
-		ok := false
-		if c, truth, isIf := edgeAssertion(b, 0); isIf {
-			if x, eq, isN := nilCompare(c); isN && x == ssa.Value(fn.Params[0]) {
-				nilEdge := 0
-				if eq != truth {
-					nilEdge = 1
-				}
-				// no dereference before the test, and the nil edge returns at once
-				clean := true
-				for _, in := range b.Instrs {
-					if _, isFA := in.(*ssa.FieldAddr); isFA {
-						clean = false
+	// edges of fn that establish "the queue is not empty" / "the receiver is not nil"
+	isRecv := func(fn *ssa.Function, v ssa.Value) bool {
+		o := origin(v)
+		return o == ssa.Value(fn.Params[0])
+	}
+	isLenU := func(v ssa.Value) bool {
+		c, ok := v.(*ssa.Call)
+		if !ok || w.callKey(c) != "builtin.len" {
+			return false
+		}
+		f, _ := loadedField(origin(c.Call.Args[0]))
+		return f == fU
+	}
+	nonEmptyEdges := func(fn *ssa.Function) EdgeSet {
+		return edgesAsserting(fn, func(c ssa.Value, truth bool) bool {
+			if bo, ok := c.(*ssa.BinOp); ok {
+				if z, isZ := intConst(bo.Y); isZ && z == 0 && isLenU(bo.X) {
+					switch bo.Op {
+					case token.EQL, token.LEQ:
+						return !truth
+					case token.NEQ, token.GTR:
+						return truth
 					}
 				}
-				tb := b.Succs[nilEdge]
-				if rt, isRet := tb.Instrs[len(tb.Instrs)-1].(*ssa.Return); isRet && clean && len(tb.Instrs) <= 2 {
-					ok = true
-					for _, res := range rt.Results {
-						if bv, isB := boolConst(res); isB {
-							if !bv && n == "Empty" {
-								ok = false // a nil queue is empty
-							}
-						} else if !isNilConst(res) {
-							ok = false
-						}
+				if z, isZ := intConst(bo.X); isZ && z == 0 && isLenU(bo.Y) {
+					switch bo.Op {
+					case token.EQL, token.GEQ:
+						return !truth
+					case token.NEQ, token.LSS:
+						return truth
 					}
 				}
 			}
-		}
-		r.Check(ok, "R6", "stanza.(*UnAckQueue)."+n+"#nil-guard", w.pos(fn.Pos()), "the method does not begin with the nil-receiver guard (the queue is nil until stream management is enabled; Send calls Push on it unconditionally)", "if uaq == nil { return zero }")
+			if call, _ := callResult(c); call != nil && w.callKey(call) == "stanza.UnAckQueue.Empty" && isRecv(fn, call.Call.Args[0]) {
+				return !truth
+			}
+			if x, eq, ok := nilCompare(c); ok {
+				if call, _ := callResult(x); call != nil && w.callKey(call) == "stanza.UnAckQueue.Peek" && isRecv(fn, call.Call.Args[0]) {
+					return eq != truth
+				}
+			}
+			return false
+		})
+	}
+	nonNilEdges := func(fn *ssa.Function) EdgeSet {
+		direct := edgesAsserting(fn, func(c ssa.Value, truth bool) bool {
+			x, eq, ok := nilCompare(c)
+			return ok && isRecv(fn, x) && eq != truth
+		})
+		return direct.union(nonEmptyEdges(fn))
 	}
 
-	// R1
+	// ---- R6
+	for _, n := range names {
+		fn := method(n)
+		cut := nonNilEdges(fn)
+		var derefs []ssa.Instruction
+		allInstrsH(fn, func(in ssa.Instruction) {
+			if fa, ok := in.(*ssa.FieldAddr); ok && isRecv(fn, fa.X) {
+				derefs = append(derefs, in)
+			}
+		})
+		bad := ""
+		for _, d := range derefs {
+			if len(cut) == 0 || reachable(entryLoc(fn), func(in ssa.Instruction) bool { return in == d }, nil, cut) {
+				bad = "the receiver is dereferenced at " + w.ipos(d) + " on a path on which it may be nil (the queue is nil until stream management is enabled; Send calls Push on it unconditionally)"
+			}
+		}
+		// the nil path returns the zero result; a nil queue is empty
+		if n == "Empty" {
+			nilEdges := edgesAsserting(fn, func(c ssa.Value, truth bool) bool {
+				x, eq, ok := nilCompare(c)
+				return ok && isRecv(fn, x) && eq == truth
+			})
+			okTrue := len(nilEdges) > 0
+			for e := range nilEdges {
+				walkPaths(Loc{e.From.Succs[e.Succ], 0}, nil, nil, 100, func(path []ssa.Instruction, end pathEnd) {
+					if rt, ok := path[len(path)-1].(*ssa.Return); ok {
+						if b, isC := boolConst(rvI(rt.Results[0], len(path)-1)); !isC || !b {
+							okTrue = false
+						}
+					}
+				})
+			}
+			if !okTrue {
+				bad = "Empty does not report a nil queue as empty"
+			}
+		}
+		r.Check(bad == "" && len(derefs) > 0, "R6", "stanza.(*UnAckQueue)."+n+"#nil-safe", w.pos(fn.Pos()), bad, fmt.Sprintf("%d dereference(s), all behind a non-nil / non-empty edge", len(derefs)))
+	}
+
+	// ---- R1
 	mutators := w.isCallTo("stanza.UnAckQueue.Push", "stanza.UnAckQueue.Pop", "stanza.UnAckQueue.PopN")
 	for _, n := range []string{"Peek", "PeekN", "Empty"} {
 		fn := method(n)
 		bad := ""
-		allInstrs(fn, func(in ssa.Instruction) {
+		allInstrsH(fn, func(in ssa.Instruction) {
 			if st, ok := in.(*ssa.Store); ok {
-				if rootOf(st.Addr) == ssa.Value(fn.Params[0]) {
+				if isRecv(fn, rootOf(st.Addr)) {
 					bad = "stores through the receiver at " + w.ipos(in)
 				}
-				// store into an element of the queue's slice
 				if ia, ok := st.Addr.(*ssa.IndexAddr); ok {
-					if f, _ := loadedField(ia.X); f == fU {
+					if f, _ := loadedField(origin(ia.X)); f == fU {
 						bad = "overwrites a queue element at " + w.ipos(in)
 					}
 				}
@@ -91,9 +144,19 @@ func runC17(w *World, r *Report, tier string) {
 		r.Check(bad == "", "R1", "stanza.(*UnAckQueue)."+n+"#pure", w.pos(fn.Pos()), "a peek modifies the queue: "+bad, "no store, no mutator call")
 	}
 
-	// R2
+	// ---- R2
 	allowed := map[string]bool{"stanza.NewUnAckQueue": true, "stanza.(*UnAckQueue).Push": true, "stanza.(*UnAckQueue).Pop": true, "stanza.(*UnAckQueue).PopN": true}
-	nW := 0
+	ownerOf := func(f *ssa.Function) string {
+		// a helper the reference tree does not have counts for the (unique) known function that calls it
+		for i := 0; i < 4 && isHelper(f); i++ {
+			sites := w.callSitesOf(f)
+			if len(sites) != 1 {
+				break
+			}
+			f = sites[0].Parent()
+		}
+		return w.funcKey(f)
+	}
 	for _, a := range w.fieldAccesses(fU, w.LibFuncs()) {
 		if a.Kind == "load" || a.Kind == "subfield" {
 			continue
@@ -108,154 +171,180 @@ func runC17(w *World, r *Report, tier string) {
 			}
 			continue
 		}
-		nW++
-		k := w.funcKey(a.Fn)
+		k := ownerOf(a.Fn)
 		r.Check(allowed[k], "R2", k+"#store:Uslice", w.ipos(a.Instr), "the queue's slice is written outside the constructor, Push, Pop and PopN", "allowed writer")
 	}
 	r.Floor("R2", 4)
 
-	// R3 Push
-	{
-		fn := method("Push")
-		var stores []*ssa.Store
-		allInstrs(fn, func(in ssa.Instruction) {
+	storesOf := func(fn *ssa.Function) []*ssa.Store {
+		var out []*ssa.Store
+		allInstrsH(fn, func(in ssa.Instruction) {
 			if st, ok := in.(*ssa.Store); ok && isStoreTo(in, fU) {
-				stores = append(stores, st)
+				out = append(out, st)
 			}
 		})
+		return out
+	}
+	U := func(fn *ssa.Function) string { return "field:param:" + fn.Params[0].Name() + ".Uslice" }
+
+	// ---- R3 Push (per path)
+	{
+		fn := method("Push")
+		stores := storesOf(fn)
 		if len(stores) != 1 {
 			r.Fail("R3", "stanza.(*UnAckQueue).Push#store", w.pos(fn.Pos()), fmt.Sprintf("%d stores to the slice", len(stores)))
 		} else {
 			st := stores[0]
-			okApp := false
-			var elem ssa.Value
-			if c, ok := st.Val.(*ssa.Call); ok && w.callKey(c) == "builtin.append" {
-				if f, _ := loadedField(c.Call.Args[0]); f == fU {
-					els := sliceLitElems(c.Call.Args[1])
-					if len(els) == 1 {
-						okApp = true
-						elem = els[0]
-					}
+			isSt := func(in ssa.Instruction) bool { return in == ssa.Instruction(st) }
+			bad := ""
+			nEmpty, nNon := 0, 0
+			walkPaths(entryLoc(fn), isSt, nil, 20000, func(path []ssa.Instruction, end pathEnd) {
+				if !isSt(path[len(path)-1]) {
+					return
 				}
-			}
-			r.Check(okApp, "R3", "stanza.(*UnAckQueue).Push#append", w.ipos(st), "Push does not append exactly one element to the tail of the current slice: "+w.nf(st.Val, 0), "Uslice = append(Uslice, &e)")
-			if okApp {
+				idx := len(path) - 1
+				val := rvI(st.Val, idx)
+				c, ok := val.(*ssa.Call)
+				if !ok || w.callKey(c) != "builtin.append" || w.nfOn(c.Call.Args[0], path) != U(fn) {
+					bad = "Push does not append to the tail of the current slice: " + w.nfOn(st.Val, path)
+					return
+				}
+				els := sliceLitElems(c.Call.Args[1])
+				if len(els) != 1 {
+					bad = fmt.Sprintf("Push appends %d elements", len(els))
+					return
+				}
+				elem := rvAny(els[0])
 				al, isAl := elem.(*ssa.Alloc)
+				if !isAl || !al.Heap {
+					bad = "the appended element is not a fresh value (the caller's element would be aliased and its id rewritten): " + w.nfOn(els[0], path)
+					return
+				}
 				var fields map[string]ssa.Value
-				if isAl && al.Heap {
-					for _, rf := range *al.Referrers() {
-						if s2, ok := rf.(*ssa.Store); ok && s2.Addr == ssa.Value(al) {
-							fields, _ = complitFields(s2.Val)
-						}
+				for _, rf := range *al.Referrers() {
+					if s2, ok := rf.(*ssa.Store); ok && s2.Addr == ssa.Value(al) {
+						fields, _ = complitFields(s2.Val)
 					}
 				}
-				if fields == nil && isAl && al.Heap {
-					// literal built in place in the fresh variable
+				if fields == nil {
 					if f2, _ := complitFields(al); len(f2) > 0 {
 						fields = f2
 					}
 				}
 				if fields == nil {
-					r.Undecided("R3", "stanza.(*UnAckQueue).Push#element", w.ipos(st), fmt.Sprintf("the appended element is not a fresh literal: %T %v heap=%v", elem, elem, isAl && al.Heap))
-				} else {
-					idNF := w.nf(fields["Id"], 0)
-					wantID := fmt.Sprintf("phi(1|add(1,field:&index(%s,-(builtin.len(%s),1)).Id))", U, U)
-					r.Check(idNF == wantID, "R3", "stanza.(*UnAckQueue).Push#id", w.ipos(st), "the new element's id is "+idNF+", expected "+wantID, "Id = phi(1 | last.Id + 1)")
-					// the constant-1 edge is the empty edge
-					if phi, ok := fields["Id"].(*ssa.Phi); ok {
-						okEdge := true
-						for i, e := range phi.Edges {
-							pred := phi.Block().Preds[i]
-							_, isOne := intConst(e)
-							for si, s := range pred.Succs {
-								if s != phi.Block() {
-									continue
-								}
-								c, truth, isIf := edgeAssertion(pred, si)
-								if !isIf {
-									continue
-								}
-								cn := w.condNF(c, truth)
-								if isOne && cn != fmt.Sprintf("eq(0,builtin.len(%s))=true", U) {
-									okEdge = false
-								}
-							}
-							if !isOne {
-								// computed in a block only reachable when non-empty
-								cut := edgesAsserting(fn, func(cv ssa.Value, truth bool) bool {
-									return w.condNF(cv, truth) == fmt.Sprintf("eq(0,builtin.len(%s))=false", U)
-								})
-								if in, ok := e.(ssa.Instruction); ok {
-									if len(cut) == 0 || reachable(entryLoc(fn), func(x ssa.Instruction) bool { return x == in }, nil, cut) {
-										okEdge = false
-									}
-								}
-							}
-						}
-						r.Check(okEdge, "R3", "stanza.(*UnAckQueue).Push#id-cases", w.ipos(st), "the id 1 is not used exactly on an empty queue", "1 iff empty")
-					}
-					T, fp := typeAssertSource(fields["Stz"], fn.Params[1])
-					r.Check(T != nil && fp == "Stz", "R3", "stanza.(*UnAckQueue).Push#text", w.ipos(st), "the held text is not the argument's text", "Stz = s.(*UnAckedStz).Stz")
+					bad = "the appended element is not a literal"
+					return
 				}
-			}
+				idNF := w.nfOn(fields["Id"], path)
+				conds := strings.Join(w.pathConds(path), " ∧ ")
+				emptyT := fmt.Sprintf("eq(0,builtin.len(%s))=true", U(fn))
+				emptyF := fmt.Sprintf("eq(0,builtin.len(%s))=false", U(fn))
+				lastID := fmt.Sprintf("add(1,field:&index(%s,-(builtin.len(%s),1)).Id)", U(fn), U(fn))
+				switch {
+				case strings.Contains(conds, emptyT):
+					nEmpty++
+					if idNF != "1" {
+						bad = "on an empty queue the new element's id is " + idNF + ", not 1"
+					}
+				case strings.Contains(conds, emptyF):
+					nNon++
+					if idNF != lastID {
+						bad = "on a non-empty queue the new element's id is " + idNF + ", not last.Id + 1 (" + lastID + ")"
+					}
+				default:
+					bad = "the id " + idNF + " is chosen without testing whether the queue is empty"
+				}
+				T, fp := typeAssertSource(rvAny(fields["Stz"]), fn.Params[1])
+				if T == nil || fp != "Stz" {
+					bad = "the held text is not the argument's text: " + w.nfOn(fields["Stz"], path)
+				}
+			})
+			r.Check(bad == "" && nEmpty > 0 && nNon > 0, "R3", "stanza.(*UnAckQueue).Push", w.ipos(st), bad, fmt.Sprintf("Uslice = append(Uslice, &e) with a fresh e; Id = 1 on %d empty path(s), last.Id+1 on %d non-empty path(s); Stz = argument's text", nEmpty, nNon))
 		}
 	}
 
-	// R4
+	// ---- R4
 	{
 		fn := method("Pop")
-		var stores []*ssa.Store
-		allInstrs(fn, func(in ssa.Instruction) {
-			if st, ok := in.(*ssa.Store); ok && isStoreTo(in, fU) {
-				stores = append(stores, st)
-			}
-		})
+		stores := storesOf(fn)
 		ok := len(stores) == 1
-		detail := fmt.Sprintf("%d stores", len(stores))
+		detail := fmt.Sprintf("%d stores to the slice", len(stores))
 		if ok {
-			got := w.nf(stores[0].Val, 0)
-			want := fmt.Sprintf("slice(%s,1,_,_)", U)
+			st := stores[0]
+			got := w.nf(st.Val, 0)
+			want := fmt.Sprintf("slice(%s,1,_,_)", U(fn))
 			if got != want {
 				ok, detail = false, "Pop stores "+got+", expected "+want
 			}
-			// guarded by Peek() != nil, and returns Peek()'s result
-			pk := w.callsIn(fn, "stanza.UnAckQueue.Peek")
-			if len(pk) != 1 {
-				ok, detail = false, "Pop does not consult Peek exactly once"
-			} else {
-				pv := pk[0].(*ssa.Call)
-				cut := edgesAsserting(fn, func(c ssa.Value, truth bool) bool { return assertsNonNil(c, truth, pv) })
-				if len(cut) == 0 || reachable(entryLoc(fn), func(in ssa.Instruction) bool { return in == ssa.Instruction(stores[0]) }, nil, cut) {
-					ok, detail = false, "Pop removes the head even when the queue is empty (slice bounds out of range)"
-				}
-				allInstrs(fn, func(in ssa.Instruction) {
-					if rt, isRet := in.(*ssa.Return); isRet && !isNilConst(rt.Results[0]) && rt.Results[0] != ssa.Value(pv) {
-						ok, detail = false, "Pop returns something other than the peeked head"
-					}
-				})
+			cut := nonEmptyEdges(fn)
+			if len(cut) == 0 || reachable(entryLoc(fn), func(in ssa.Instruction) bool { return in == ssa.Instruction(st) }, nil, cut) {
+				ok, detail = false, "Pop removes the head even when the queue is empty (slice bounds out of range)"
 			}
+			// every non-nil result is the former head: Peek()'s result or Uslice[0] read before the store
+			walkPaths(entryLoc(fn), nil, nil, 5000, func(path []ssa.Instruction, end pathEnd) {
+				rt, isRet := path[len(path)-1].(*ssa.Return)
+				if !isRet {
+					return
+				}
+				res := rvI(rt.Results[0], len(path)-1)
+				if isNilConst(res) || pathAsserts(path, func(c ssa.Value, truth bool) bool { return assertsNil(c, truth, res) }) {
+					if countOn(path, func(in ssa.Instruction) bool { return in == ssa.Instruction(st) }) > 0 {
+						ok, detail = false, "Pop removes an element and returns nil"
+					}
+					return
+				}
+				nfv := w.nfOn(rt.Results[0], path)
+				isPeek := strings.HasPrefix(nfv, "stanza.UnAckQueue.Peek(")
+				isHead := nfv == fmt.Sprintf("index(%s,0)", U(fn))
+				if !isPeek && !isHead {
+					ok, detail = false, "Pop returns "+nfv+", not the former head"
+					return
+				}
+				if isHead {
+					// the element must have been read before the slice was cut
+					var ld ssa.Instruction
+					v := res
+					if mi, isMI := v.(*ssa.MakeInterface); isMI {
+						v = mi.X
+					}
+					if u, isU := v.(*ssa.UnOp); isU {
+						ld = u
+					}
+					iL, iS := -1, -1
+					for i, in := range path {
+						if in == ld {
+							iL = i
+						}
+						if in == ssa.Instruction(st) {
+							iS = i
+						}
+					}
+					if iS >= 0 && (iL < 0 || iL > iS) {
+						ok, detail = false, "Pop reads the head after having removed it: it returns the second element"
+					}
+				}
+				if countOn(path, func(in ssa.Instruction) bool { return in == ssa.Instruction(st) }) != 1 {
+					ok, detail = false, "Pop returns an element without removing it"
+				}
+			})
 		}
-		r.Check(ok, "R4", "stanza.(*UnAckQueue).Pop", w.pos(fn.Pos()), detail, "r := Peek(); if r != nil { Uslice = Uslice[1:] }; return r")
+		r.Check(ok, "R4", "stanza.(*UnAckQueue).Pop", w.pos(fn.Pos()), detail, "removes Uslice[0] only when non-empty and returns it")
 	}
 	{
 		fn := method("PopN")
-		var stores []*ssa.Store
-		allInstrs(fn, func(in ssa.Instruction) {
-			if st, ok := in.(*ssa.Store); ok && isStoreTo(in, fU) {
-				stores = append(stores, st)
-			}
-		})
+		stores := storesOf(fn)
 		ok := len(stores) == 1
 		detail := fmt.Sprintf("%d stores", len(stores))
 		if ok {
 			got := w.nf(stores[0].Val, 0)
-			want := fmt.Sprintf("slice(%s,builtin.len(stanza.UnAckQueue.PeekN(param:uaq,param:n)),_,_)", U)
+			peek := fmt.Sprintf("stanza.UnAckQueue.PeekN(param:%s,param:%s)", fn.Params[0].Name(), fn.Params[1].Name())
+			want := fmt.Sprintf("slice(%s,builtin.len(%s),_,_)", U(fn), peek)
 			if got != want {
 				ok, detail = false, "PopN stores "+got+", expected "+want
 			}
 			allInstrs(fn, func(in ssa.Instruction) {
 				if rt, isRet := in.(*ssa.Return); isRet && !isNilConst(rt.Results[0]) {
-					if w.nf(rt.Results[0], 0) != "stanza.UnAckQueue.PeekN(param:uaq,param:n)" {
+					if w.nf(rt.Results[0], 0) != peek {
 						ok, detail = false, "PopN returns something other than PeekN(n)"
 					}
 				}
@@ -264,94 +353,108 @@ func runC17(w *World, r *Report, tier string) {
 		r.Check(ok, "R4", "stanza.(*UnAckQueue).PopN", w.pos(fn.Pos()), detail, "r := PeekN(n); Uslice = Uslice[len(r):]; return r")
 	}
 
-	// R5
+	// ---- R5
 	{
 		fn := method("PeekN")
 		n := fn.Params[1]
 		nonNilRet := func(in ssa.Instruction) bool {
 			rt, ok := in.(*ssa.Return)
-			return ok && !isNilConst(rt.Results[0])
+			return ok && in.Parent() == fn && !isNilConst(rt.Results[0])
 		}
 		pos := edgesAsserting(fn, func(c ssa.Value, truth bool) bool {
-			return w.condNF(c, truth) == "le(param:n,0)=false"
+			s := w.condNF(c, truth)
+			return s == "le(param:"+n.Name()+",0)=false"
 		})
 		r.Check(len(pos) > 0 && !reachable(entryLoc(fn), nonNilRet, nil, pos), "R5", "stanza.(*UnAckQueue).PeekN#non-positive", w.pos(fn.Pos()), "PeekN can return elements for n <= 0", "non-nil result only when n > 0")
-		// loop: i from 0, i+1, bound phi(n, len(U)), body appends Uslice[i]
-		var iPhi, rPhi *ssa.Phi
+		// copy loop: either `for i := 0; i < bound; i++ { r = append(r, Uslice[i]) }` or `for _, e := range Uslice[:bound] { r = append(r, e) }`
 		var bound ssa.Value
-		for _, b := range fn.Blocks {
-			for _, in := range b.Instrs {
+		okLoop, detail := false, "no copy loop of a recognised shape (ascending from 0, r = append(r, Uslice[i]))"
+		var rPhi *ssa.Phi
+		appendOf := func(idxOK func(ia *ssa.IndexAddr) bool) bool {
+			found := false
+			allInstrs(fn, func(in ssa.Instruction) {
 				phi, ok := in.(*ssa.Phi)
 				if !ok {
-					continue
+					return
 				}
+				for _, e := range phi.Edges {
+					c, ok := e.(*ssa.Call)
+					if !ok || w.callKey(c) != "builtin.append" || c.Call.Args[0] != ssa.Value(phi) {
+						continue
+					}
+					els := sliceLitElems(c.Call.Args[1])
+					if len(els) != 1 {
+						continue
+					}
+					e0 := els[0]
+					if mi, ok := e0.(*ssa.MakeInterface); ok {
+						e0 = mi.X
+					}
+					if u, ok := e0.(*ssa.UnOp); ok && u.Op == token.MUL {
+						if ia, ok := u.X.(*ssa.IndexAddr); ok && idxOK(ia) {
+							found = true
+							rPhi = phi
+						}
+					}
+				}
+			})
+			return found
+		}
+		// form (a)
+		var iPhi *ssa.Phi
+		allInstrs(fn, func(in ssa.Instruction) {
+			if phi, ok := in.(*ssa.Phi); ok {
 				for _, e := range phi.Edges {
 					if bo, ok := e.(*ssa.BinOp); ok && bo.Op == token.ADD && bo.X == ssa.Value(phi) {
 						if one, ok := intConst(bo.Y); ok && one == 1 {
-							iPhi = phi
-						}
-					}
-					if c, ok := e.(*ssa.Call); ok && w.callKey(c) == "builtin.append" && c.Call.Args[0] == ssa.Value(phi) {
-						rPhi = phi
-					}
-				}
-			}
-		}
-		okLoop := iPhi != nil && rPhi != nil
-		detail := "no copy loop of the expected shape (i ascending by 1, r = append(r, Uslice[i]))"
-		if okLoop {
-			startsAt0 := false
-			for _, e := range iPhi.Edges {
-				if z, ok := intConst(e); ok && z == 0 {
-					startsAt0 = true
-				}
-			}
-			if !startsAt0 {
-				okLoop, detail = false, "the copy does not start at index 0"
-			}
-			// loop condition i < bound
-			if c, truth, ok := edgeAssertion(iPhi.Block(), 0); ok {
-				bo, isB := c.(*ssa.BinOp)
-				if !isB || bo.Op != token.LSS || bo.X != ssa.Value(iPhi) || !truth {
-					okLoop, detail = false, "the loop condition is not i < n"
-				} else {
-					bound = bo.Y
-				}
-			}
-			// appended element is Uslice[i]
-			for _, e := range rPhi.Edges {
-				if c, ok := e.(*ssa.Call); ok {
-					els := sliceLitElems(c.Call.Args[1])
-					okEl := false
-					if len(els) == 1 {
-						e0 := els[0]
-						if mi, ok := e0.(*ssa.MakeInterface); ok {
-							e0 = mi.X
-						}
-						if u, ok := e0.(*ssa.UnOp); ok && u.Op == token.MUL {
-							if ia, ok := u.X.(*ssa.IndexAddr); ok && ia.Index == ssa.Value(iPhi) {
-								if f, _ := loadedField(ia.X); f == fU {
-									okEl = true
+							for _, e2 := range phi.Edges {
+								if z, ok := intConst(e2); ok && z == 0 {
+									iPhi = phi
 								}
 							}
 						}
 					}
-					if !okEl {
-						okLoop, detail = false, "the loop does not append Uslice[i]"
-					}
 				}
 			}
-			// returns r
+		})
+		if iPhi != nil && appendOf(func(ia *ssa.IndexAddr) bool {
+			f, _ := loadedField(ia.X)
+			return ia.Index == ssa.Value(iPhi) && f == fU
+		}) {
+			if c, truth, ok := edgeAssertion(iPhi.Block(), 0); ok {
+				if bo, isB := c.(*ssa.BinOp); isB && bo.Op == token.LSS && bo.X == ssa.Value(iPhi) && truth {
+					bound = bo.Y
+					okLoop = true
+				}
+			}
+		}
+		// form (b)
+		if !okLoop {
+			for _, lp := range findRangeLoops(fn) {
+				sl, ok := lp.slice.(*ssa.Slice)
+				if !ok || sl.Low != nil || sl.High == nil {
+					continue
+				}
+				if f, _ := loadedField(sl.X); f != fU {
+					continue
+				}
+				if appendOf(func(ia *ssa.IndexAddr) bool { return ia.Index == lp.idx && ia.X == ssa.Value(sl) }) {
+					bound = sl.High
+					okLoop = true
+				}
+			}
+		}
+		if okLoop {
 			allInstrs(fn, func(in ssa.Instruction) {
 				if rt, ok := in.(*ssa.Return); ok && !isNilConst(rt.Results[0]) && rt.Results[0] != ssa.Value(rPhi) {
 					okLoop, detail = false, "PeekN returns something other than the copied elements"
 				}
 			})
 		}
-		r.Check(okLoop, "R5", "stanza.(*UnAckQueue).PeekN#copy-loop", w.pos(fn.Pos()), detail, "for i := 0; i < n; i++ { r = append(r, Uslice[i]) }")
+		r.Check(okLoop, "R5", "stanza.(*UnAckQueue).PeekN#copy-loop", w.pos(fn.Pos()), detail, "copies Uslice[0..bound) in ascending order")
 		if okLoop && bound != nil {
 			got := w.nf(bound, 0)
-			want := fmt.Sprintf("phi(builtin.len(%s)|param:n)", U)
+			want := fmt.Sprintf("phi(builtin.len(%s)|param:%s)", U(fn), n.Name())
 			okClamp := got == want
 			if okClamp {
 				if phi, ok := bound.(*ssa.Phi); ok {
@@ -361,7 +464,7 @@ func runC17(w *World, r *Report, tier string) {
 						}
 						pred := phi.Block().Preds[i]
 						cut := edgesAsserting(fn, func(c ssa.Value, truth bool) bool {
-							return w.condNF(c, truth) == fmt.Sprintf("le(param:n,builtin.len(%s))=false", U)
+							return w.condNF(c, truth) == fmt.Sprintf("le(param:%s,builtin.len(%s))=false", n.Name(), U(fn))
 						})
 						if len(cut) == 0 || reachable(entryLoc(fn), func(x ssa.Instruction) bool { return x.Block() == pred }, nil, cut) {
 							okClamp = false
@@ -377,40 +480,52 @@ func runC17(w *World, r *Report, tier string) {
 		ok := true
 		detail := ""
 		nNon := 0
-		walkPaths(entryLoc(fn), nil, nil, 100, func(path []ssa.Instruction, end pathEnd) {
+		cut := nonEmptyEdges(fn)
+		walkPaths(entryLoc(fn), nil, nil, 200, func(path []ssa.Instruction, end pathEnd) {
 			rt, isRet := path[len(path)-1].(*ssa.Return)
 			if !isRet {
 				return
 			}
-			if isNilConst(rt.Results[0]) {
+			if isNilConst(rvI(rt.Results[0], len(path)-1)) {
 				return
 			}
 			nNon++
-			if w.nf(rt.Results[0], 0) != fmt.Sprintf("index(%s,0)", U) {
-				ok, detail = false, "Peek returns "+w.nf(rt.Results[0], 0)+", not the head Uslice[0]"
+			if got := w.nfOn(rt.Results[0], path); got != fmt.Sprintf("index(%s,0)", U(fn)) {
+				ok, detail = false, "Peek returns "+got+", not the head Uslice[0]"
 			}
-			conds := strings.Join(w.pathConds(path), " ∧ ")
-			if !strings.Contains(conds, fmt.Sprintf("eq(0,builtin.len(%s))=false", U)) {
+			viaNonEmpty := false
+			pathEdges(path, func(b *ssa.BasicBlock, succ int) {
+				if cut[Edge{b, succ}] {
+					viaNonEmpty = true
+				}
+			})
+			if !viaNonEmpty {
 				ok, detail = false, "Peek indexes the slice without having checked that it is non-empty"
 			}
 		})
-		r.Check(ok && nNon > 0, "R5", "stanza.(*UnAckQueue).Peek", w.pos(fn.Pos()), detail, "Uslice[0] iff len != 0")
+		r.Check(ok && nNon > 0, "R5", "stanza.(*UnAckQueue).Peek", w.pos(fn.Pos()), detail, "Uslice[0] iff non-empty")
 	}
 	{
 		fn := method("Empty")
-		ok := false
-		allInstrs(fn, func(in ssa.Instruction) {
-			if rt, isRet := in.(*ssa.Return); isRet {
-				if _, isC := boolConst(rt.Results[0]); isC {
-					return
-				}
-				if w.condNF(rt.Results[0], true) == fmt.Sprintf("eq(0,builtin.len(%s))=true", U) {
-					ok = true
-				} else {
-					ok = false
-				}
+		ok, n := true, 0
+		walkPaths(entryLoc(fn), nil, nil, 200, func(path []ssa.Instruction, end pathEnd) {
+			rt, isRet := path[len(path)-1].(*ssa.Return)
+			if !isRet {
+				return
+			}
+			res := rvI(rt.Results[0], len(path)-1)
+			if _, isC := boolConst(res); isC {
+				return
+			}
+			n++
+			saved := nfPath
+			nfPath = path
+			got := w.condNF(res, true)
+			nfPath = saved
+			if got != fmt.Sprintf("eq(0,builtin.len(%s))=true", U(fn)) && got != fmt.Sprintf("le(builtin.len(%s),0)=true", U(fn)) {
+				ok = false
 			}
 		})
-		r.Check(ok, "R5", "stanza.(*UnAckQueue).Empty", w.pos(fn.Pos()), "Empty is not len(Uslice) == 0", "len(Uslice) == 0")
+		r.Check(ok && n > 0, "R5", "stanza.(*UnAckQueue).Empty", w.pos(fn.Pos()), "Empty is not len(Uslice) == 0", "len(Uslice) == 0")
 	}
 }
